@@ -18,13 +18,14 @@ RULE = ("random directory trees (depth <= 4) with .py/.pyc/.pyo files, look-alik
         "nested) --path/--test-path entries; the real remove_stale_bytecode (and, for a sample, a full --list-tests CLI "
         "run) on a materialised copy, complete snapshot (path, size, sha256, mode) before and after. Non-trivial = "
         "tree with at least one orphan and one non-orphan compiled file; distinct by (tree, options)")
-ASSUMPTIONS = ["symlinks are not generated (walk_with_symlinks's symlink branch is not modelled)"]
+ASSUMPTIONS = ["symlinked sub-directories are materialised (15%) and must behave like real ones (the model has no links)"]
 TRUSTED = ["os.walk / os.unlink (file tree supplied to the model by the harness)"]
 
 FILE_POOL = ["a.py", "a.pyc", "a.pyo", "b.pyc", "c.pyo", "d.py", "x.pyc.bak", ".pyc", "pyc", "X.PYC", "e.pyo~", "f.txt",
              "__init__.py", "__init__.pyc", "g.PY", "h.pyc", "h.py", ".py", "tests.pyc", "mod.pyo", "mod.py", "ä.pyc"]
 DIR_POOL = ["pkg", "sub", "__pycache__", ".git", ".svn", "CVS", "_darcs", "not-ident", "node_modules", "deep", "x.y", "Ünï",
-            "git", "svn", ".tox", "tox", "arch-ids", ".arch-ids", "{arch}"]
+            "git", "svn", ".tox", "tox", "arch-ids", ".arch-ids", "{arch}", "__pycache__.old", "old__pycache__",
+            "__pycache__2", "CVS2", "_darcs.bak"]
 # the documented defaults of --ignore_dir (cross-checked with the argparse default regenerated into Facts)
 DEFAULT_IGNORE = [".git", ".svn", "CVS", "{arch}", ".arch-ids", "_darcs"]
 
@@ -38,18 +39,31 @@ def gen_tree(rng, depth):
     return {"files": files, "subs": subs}
 
 
-def materialize(tree, d):
+def materialize(tree, d, rng=None, store=None):
+    """`store`: [directory outside every search path, counter, root taken?]; with `rng`, some sub-directories are
+    created there and linked into the tree (the walk follows symlinked directories like real ones).  The store's
+    path is a character-wise prefix of the tree's path, and one link may point at the store itself."""
     os.makedirs(d, exist_ok=True)
     for f in tree["files"]:
         with open(os.path.join(d, f), "w") as fh:
             fh.write("content of %s\n" % f)
     for n, t in tree["subs"]:
-        materialize(t, os.path.join(d, n))
+        if rng is not None and store is not None and rng.random() < 0.15:
+            if not store[2] and rng.random() < 0.5:
+                store[2] = True
+                target = store[0]
+            else:
+                store[1] += 1
+                target = os.path.join(store[0] + "_links", "t%d" % store[1])
+            materialize(t, target, rng, store)
+            os.symlink(target, os.path.join(d, n))
+        else:
+            materialize(t, os.path.join(d, n), rng, store)
 
 
 def snapshot(d):
     out = {}
-    for root, dirs, files in os.walk(d):
+    for root, dirs, files in os.walk(d, followlinks=True):
         for f in files:
             p = os.path.join(root, f)
             st = os.stat(p)
@@ -120,8 +134,9 @@ def run(ctx):
     queries = []
     reals = []
     for idx, (tree, roots, keep, usec, extra_ignore, cli) in enumerate(cases):
-        d = os.path.join(ctx.tmp, "bc%05d" % idx)
-        materialize(tree, d)
+        d = os.path.join(ctx.tmp, "bc%05d_tree" % idx)
+        store_dir = os.path.join(ctx.tmp, "bc%05d" % idx)
+        materialize(tree, d, rng, [store_dir, 0, False])
         before = snapshot(d)
         args = ["prog"]
         for k, r in enumerate(roots):
@@ -151,6 +166,8 @@ def run(ctx):
                           % (extra_ignore, real_ignore, ignore), {"args": args[1:], "real": real_ignore},
                           signature="C15:ignore-set")
         shutil.rmtree(d, ignore_errors=True)
+        shutil.rmtree(store_dir, ignore_errors=True)
+        shutil.rmtree(store_dir + "_links", ignore_errors=True)
         reals.append((before, after, ignore))
         queries.append({"op": "bytecode", "keep": keep, "usecompiled": usec,
                         "ignore": [[ord(ch) for ch in x] for x in ignore],
